@@ -56,6 +56,8 @@ type StepRec struct {
 	Res     TxResult
 	Events  []Ev
 	Callbacks []CallbackRec
+	// answers the harness's module service gave during this step (its own record, not the service module's)
+	ModReplies []ModReply
 	Pre, Post *Snap
 	Height  int64
 	Time    time.Time
@@ -343,6 +345,10 @@ func (x *Exec) Apply(op *Op, opIndex int) bool {
 }
 
 func (x *Exec) step(r *StepRec) {
+	r.ModReplies = x.H().takeModReplies()
+	for i := 1; i < len(x.hosts); i++ {
+		x.hosts[i].takeModReplies()
+	}
 	x.steps++
 	r.Idx = x.steps
 	r.OpIndex = x.opIndex
